@@ -117,9 +117,17 @@ Theorem C17_fixed_laws : forall (T : Type) (O : ops T) (a b : msg (T := T)) (j k
   /\ b_sum O (b_pow O a j) [b_pow O a k] = b_pow O a (oadd O j k) /\ b_sum O a [b_zeros O a] = a.
 Proof. exact @fixed_laws. Qed.
 
-(* ... except division by a real number in the code as it is (py2 name __div__): refuted; identity with the
-   proposed `__truediv__ = _no_op` *)
-Theorem C17_fixed_sdiv_refuted : exists (a : qmsg) (c : Q), fam a = FFixed /\
+(* the model variant the correspondence check compares with the code is the fully repaired one *)
+Theorem C17_code_variant : cur = repaired.
+Proof. exact eq_refl. Qed.
+
+(* division by a real number is the identity as well (fix 7b98f8b: __truediv__ = _no_op) *)
+Theorem C17_fixed_sdiv : forall (T : Type) (O : ops T) (a : msg (T := T)) (c : T),
+  fam a = FFixed -> b_sdiv O repaired a c = a /\ b_sdiv O repaired (b_smul O a c) c = a.
+Proof. exact (fun T O a c H => @fixed_sdiv T O repaired a c H eq_refl). Qed.
+
+(* history: before that fix only the py2 name __div__ was a no-op and (f * c) / c was not f *)
+Theorem C17_fixed_sdiv_legacy_refuted : exists (a : qmsg) (c : Q), fam a = FFixed /\
   b_sdiv Qops pinned (b_smul Qops a c) c <> a /\ b_sdiv Qops applied3 (b_smul Qops a c) c <> a.
 Proof. exact fixed_sdiv_refuted. Qed.
 
@@ -150,13 +158,24 @@ Theorem C17_setitem_pointwise : forall (T : Type) (O : ops T) (a : msg (T := T))
   /\ bmeta (setitem a i p) = bmeta a /\ fam (setitem a i p) = fam a /\ lognorm (setitem a i p) = lognorm a.
 Proof. exact @setitem_pointwise. Qed.
 
-(* limits of a transformed message: lost by the pinned code (refuted + exact description of what
-   happens), kept by the proposed repair for every expression *)
-Theorem C17_transformed_limits_refuted : exists (env : list (mval (T := Q))) (e : expr (T := Q)) v v0,
+(* limits of a transformed message survive every expression (fix f7f8cba) *)
+Theorem C17_transformed_limits : forall (T : Type) (O : ops T) (env : list (mval (T := T))) (e : expr (T := T)) v,
+  eval O repaired env e = Some v ->
+  exists v0, nth_error env (leftvar e) = Some v0 /\ tlimits v = tlimits v0.
+Proof. exact (fun T O env e => @limits_preserved T O repaired env e eq_refl). Qed.
+
+(* zeros_like of a transformed message is the zeros_like of its base under the same wrapper (fix 6f95d0b);
+   with C17_zeros_nat / C17_normal_zeros its natural parameters are zero and it is the unit of the product *)
+Theorem C17_transformed_zeros : forall (T : Type) (O : ops T) s i l h (a : msg (T := T)),
+  eval O repaired [MT s i l h a] (EZeros (EVar 0)) = Some (MT s i l h (b_zeros O a)).
+Proof. exact (fun T O s i l h a => @transformed_zeros T O repaired s i l h a eq_refl eq_refl). Qed.
+
+(* history: the pinned code lost the limits (witness + exact description), any variant keeping them is fine *)
+Theorem C17_transformed_limits_legacy_refuted : exists (env : list (mval (T := Q))) (e : expr (T := Q)) v v0,
   eval Qops pinned env e = Some v /\ nth_error env (leftvar e) = Some v0 /\ tlimits v <> tlimits v0.
 Proof. exact transformed_limits_refuted. Qed.
 
-Theorem C17_transformed_limits_current : forall (T : Type) (O : ops T) (V : variant) (env : list (mval (T := T))) (e : expr (T := T)),
+Theorem C17_transformed_limits_legacy : forall (T : Type) (O : ops T) (V : variant) (env : list (mval (T := T))) (e : expr (T := T)),
   keep_limits V = false -> is_var e = false ->
   forall s i l h m, eval O V env e = Some (MT s i l h m) -> (l, h) = (neg_infinity, infinity).
 Proof. exact @limits_dropped. Qed.
@@ -172,7 +191,7 @@ Theorem C17_transformed_div_mul : forall (T : Type) (O : ops T) (V : variant) s 
 Proof. exact @transformed_div_mul. Qed.
 
 (* zeros_like of a transformed normal: natural parameters are nan in the pinned code (binary64 witness) *)
-Theorem C17_transformed_zeros_refuted : all_zero (eval (fops true tb0) pinned [un1] (EZeros (EVar 0))) = false.
+Theorem C17_transformed_zeros_legacy_refuted : all_zero (eval (fops true tb0) pinned [un1] (EZeros (EVar 0))) = false.
 Proof. exact transformed_zeros_refuted. Qed.
 
 Theorem C17_transformed_zeros_repaired : all_zero (eval (fops true tb0) repaired [un1] (EZeros (EVar 0))) = true.
@@ -294,6 +313,6 @@ Proof. exact model_factor_change_of_variables. Qed.
 
 Print Assumptions C17_div_mul_partial.
 Print Assumptions C17_wrapper_preserved.
-Print Assumptions C17_transformed_zeros_refuted.
+Print Assumptions C17_transformed_zeros_legacy_refuted.
 Print Assumptions C17_normal_div_mul.
 Print Assumptions C17_transform_density.
